@@ -83,6 +83,12 @@ Definition dec_s (fuel : nat) (v : val) : option stmt :=
     match get_n p, dec_e fuel it, dec_e fuel mn, dec_e fuel e with
     | Some p', Some i', Some m', Some e' => Some (SSetMenu p' i' m' e') | _, _, _, _ => None end
   | VL [VZ 7] => Some SExit
+  | VL [VZ 8; VZ md; f; e] =>
+    match (if md =? 1 then Some PInto else if md =? 2 then Some PAfter else if md =? 3 then Some PBefore else None), dec_e fuel f, dec_e fuel e with
+    | Some md', Some f', Some e' => Some (SPutField md' f' e') | _, _, _ => None end
+  | VL [VZ 9; VZ md; i; e] =>
+    match (if md =? 1 then Some PInto else if md =? 2 then Some PAfter else if md =? 3 then Some PBefore else None), get_n i, dec_e fuel e with
+    | Some md', Some i', Some e' => Some (SPutLoc md' i' e') | _, _, _ => None end
   | _ => None
   end.
 
@@ -170,6 +176,8 @@ Definition text_okb_s (en : env) (props : list string) (s : stmt) : bool :=
   | SSetAcc n o v => text_okb en (EAcc n o) && text_okb en v
   | SSetMenu pid it mn v => text_okb en (EMenu pid it mn) && text_okb en v
   | SExit => true
+  | SPutField _ f v => text_okb en f && text_okb en v
+  | SPutLoc _ i v => loc_okb en i && text_okb en v
   end.
 Definition js_okb_s (en : env) (props : list string) (s : stmt) : bool :=
   match s with
@@ -181,6 +189,7 @@ Definition js_okb_s (en : env) (props : list string) (s : stmt) : bool :=
   | SSetAcc _ _ _ => false
   | SSetMenu pid it mn v => js_okb en (EMenu pid it mn) && js_okb en v
   | SExit => true
+  | SPutField _ _ _ | SPutLoc _ _ _ => false
   end.
 Definition is_qnil (q : prog2) : bool := match q with QNil => true | _ => false end.
 Fixpoint text_okb_q (en : env) (props : list string) (q : prog2) : bool :=
